@@ -68,7 +68,19 @@ impl SerializeEmbeddedGroup for PoolParams {
     }
 }
 
-impl_deserialize_for_wrapped_tuple!(PoolParams);
+impl Deserialize for PoolParams {
+    fn deserialize<R: BufRead + Seek>(raw: &mut Deserializer<R>) -> Result<Self, DeserializeError> {
+        (|| -> Result<_, DeserializeError> {
+            use crate::serialization::utils::check_len_indefinite;
+            let len = raw.array()?;
+            check_len(len, 9, "pool_params")?;
+            let pool_params = Self::deserialize_as_embedded_group(raw, len)?;
+            check_len_indefinite(raw, len)?;
+            Ok(pool_params)
+        })()
+        .map_err(|e| e.annotate("PoolParams"))
+    }
+}
 
 impl DeserializeEmbeddedGroup for PoolParams {
     fn deserialize_as_embedded_group<R: BufRead + Seek>(
